@@ -266,8 +266,29 @@ size_t varintFloatEncode(uint8_t *output, const double *values,
     packBits(signs, count, 1, p);
     p += (count + 7) / 8;
 
+    /* COMMON_EXPONENT stores every exponent as a one-byte offset from the
+     * smallest one. When the exponents of this array are spread wider than a
+     * byte can hold, encode them independently instead. The decoder follows
+     * the mode byte of the header, so record the mode actually used there. */
+    varintFloatEncodingMode exp_mode = mode;
+    if (mode == VARINT_FLOAT_MODE_COMMON_EXPONENT) {
+        int lo = INT16_MAX;
+        int hi = INT16_MIN;
+        for (size_t i = 0; i < count; i++) {
+            if (!special_flags[i]) {
+                lo = exponents[i] < lo ? exponents[i] : lo;
+                hi = exponents[i] > hi ? exponents[i] : hi;
+            }
+        }
+
+        if (hi - lo > UINT8_MAX) {
+            exp_mode = VARINT_FLOAT_MODE_INDEPENDENT;
+            output[3] = (uint8_t)exp_mode;
+        }
+    }
+
     /* Write exponents based on mode */
-    if (mode == VARINT_FLOAT_MODE_INDEPENDENT) {
+    if (exp_mode == VARINT_FLOAT_MODE_INDEPENDENT) {
         /* Each exponent independently */
         for (size_t i = 0; i < count; i++) {
             if (!special_flags[i]) {
@@ -280,7 +301,7 @@ size_t varintFloatEncode(uint8_t *output, const double *values,
                 p += width;
             }
         }
-    } else if (mode == VARINT_FLOAT_MODE_COMMON_EXPONENT) {
+    } else if (exp_mode == VARINT_FLOAT_MODE_COMMON_EXPONENT) {
         /* Find min/max exponents for non-special values */
         int16_t min_exp = INT16_MAX;
         int16_t max_exp = INT16_MIN;
